@@ -22,7 +22,7 @@ from ..model import AnalysisError
 from ..x_syncnorm import normalized
 
 NORM_MODULES = ("tornado/locks.py", "tornado/queues.py", "tornado/gen.py", "tornado/concurrent.py", "tornado/ioloop.py", "tornado/platform/asyncio.py")
-from ..x_sync import check_none_tests, own_walk, guard_models, aug_delta, node_counts, method_call_on, container_uses, exit_states, reaches, lambda_or_func_body_calls, own_find, own_settle_sites
+from ..x_sync import check_outcome_reads, check_none_tests, own_walk, guard_models, aug_delta, node_counts, method_call_on, container_uses, exit_states, reaches, lambda_or_func_body_calls, own_find, own_settle_sites
 
 TECHNIQUE = "typestate over the CFG (permit accounting), exhaustive guard folding, settle-discipline and who-may-touch lint"
 EXPLANATION = (
@@ -450,6 +450,37 @@ def check_ctx(ck, grants):
             ck.ob("C33.ctx", ax, ax.node, k == 1, "%s.__aexit__ releases exactly once, whatever the exit reason (count=%d)" % (cls, k), construct="exit releases=%d" % k)
 
 
+RELEASE_CALLERS = {"Semaphore.__aexit__", "Lock.__aexit__", "BoundedSemaphore.release", "Lock.release", "_ReleasingContextManager.__exit__"}
+
+
+def check_who_releases(ck):
+    """A permit is given back only by its holder: inside locks.py ``release`` is referenced only by the
+    context-manager exits and the wrappers that *are* release (BoundedSemaphore/Lock).  The waiting machinery
+    (acquire, its timeout and done callbacks, the garbage collector) never releases: a waiter that timed out or
+    was cancelled held no permit."""
+    n = 0
+    m = ck.repo.module(L)
+    for fi in m.funcs.values():
+        if not isinstance(fi.node, q.FuncNode):
+            continue
+        for x in ast.walk(fi.node):
+            if isinstance(x, ast.Attribute) and x.attr == "release" and isinstance(x.ctx, ast.Load):
+                # attribute of which function's own scope?  nested defs are visited as their own FuncInfo
+                owner_ok = True
+                for nf in ck.repo.nested(fi):
+                    if any(x is y for y in ast.walk(nf.node)):
+                        owner_ok = False
+                if not owner_ok:
+                    continue
+                top = fi
+                while top.parent is not None:
+                    top = top.parent
+                n += 1
+                ck.ob("C33.who-releases", fi, x, top.qualname in RELEASE_CALLERS and fi is top,
+                      "release is referenced only by the holder-side exits (%s); the semaphore's own waiting/timeout/cancellation machinery never gives a permit back" % ", ".join(sorted(RELEASE_CALLERS)))
+    ck.floor("C33.who-releases", n, 4, "references to release in locks.py")
+
+
 def run(ck):
     ck.repo = normalized(ck.repo, NORM_MODULES)  # alias / named-boolean / temporary / setter-helper normalisation (vt/x_syncnorm.py)
     ck.rule("C33.acquire-ts", "Semaphore.acquire: every normal path either takes one permit and grants the fresh future, or leaves _value alone and queues that future; the same future is returned")
@@ -460,6 +491,8 @@ def run(ck):
     ck.rule("C33.gc-live", "_garbage_collect keeps exactly the not-done waiters, in order, and does not touch _value")
     ck.rule("C33.timeout", "a queued acquire with a timeout arms one timer with that timeout; its callback fails a live waiter with TimeoutError exactly once, never grants, never changes _value")
     ck.rule("C33.none-test", "acquire's timeout is compared with None by identity (timeout=0 is a legal, immediate timeout)")
+    ck.rule("C33.who-releases", "inside locks.py `release` is referenced only by __aexit__, the releasing context manager and the BoundedSemaphore/Lock wrappers — never by acquire, its callbacks or the garbage collector (a waiter that gave up held no permit)")
+    ck.rule("C33.cancel-aware", "any result()/exception() read of a waiter future is cancel-aware (a cancelled waiter must not raise CancelledError out of unrelated operations)")
     ck.rule("C33.bounded", "BoundedSemaphore.release returns the permit only while _value < initial value, otherwise raises; the bound is fixed at construction")
     ck.rule("C33.lock", "Lock wraps BoundedSemaphore(1); release translates (never swallows) the bound error; acquire delegates with the timeout")
     ck.rule("C33.ctx", "the context manager a grant resolves to, and __aexit__, release the same primitive exactly once")
@@ -495,6 +528,11 @@ def run(ck):
     rs = [nd for nd in si.cfg.stmt_nodes(lambda nd: nd.kind == "stmt" and isinstance(nd.ast, ast.Raise))]
     ok = any(guard_models(facts_i[nd.id], [vp], range(-3, 4)) == {(-3,), (-2,), (-1,)} for nd in rs)
     ck.ob("C33.grant-guard", si, si.node, ok, "a negative initial value (and only that) is rejected", construct="rejects negative initial value")
+    check_who_releases(ck)
+    for cls in SEM_FAMILY + ("Lock", "_ReleasingContextManager"):
+        for fi in ck.repo.methods(L, cls):
+            if isinstance(fi.node, q.FuncNode):
+                check_outcome_reads(ck, "C33.cancel-aware", fi)
     raised = check_bounded(ck)
     check_lock(ck, raised)
     check_ctx(ck, [(acq, c) for _n, c in own_find(acq, _is_grant)] + [(rel, c) for _n, c in own_find(rel, _is_grant)])
@@ -547,6 +585,8 @@ def _drop_done_test(root):
 
 
 MUTANTS = [
+    ("a cancelled queued waiter gives back a permit it never held (seeded C33-adv3)", _in("Semaphore.acquire", replace_stmt(lambda st: isinstance(st, ast.Expr) and "_waiters.append" in ast.unparse(st), lambda st: [st, parse_stmt("waiter.add_done_callback(lambda f: self.release() if f.cancelled() else None)")])), "C33.who-releases"),
+    ("the timeout callback releases", _in("Semaphore.acquire.<locals>.on_timeout", replace_stmt(lambda st: "_garbage_collect" in ast.unparse(st), lambda st: [parse_stmt("self.release()"), st])), "C33.who-releases"),
     ("async with enters without waiting for the permit (__aenter__ does not await)", _in("Semaphore.__aenter__", replace_stmt(lambda st: isinstance(st, ast.Expr) and isinstance(st.value, ast.Await), lambda st: [ast.Expr(value=st.value.value)])), "C33.ctx"),
     ("Semaphore(0) rejected / Semaphore(-1) off by one (value <= 0)", _in("Semaphore.__init__", _cmp_op(ast.Lt, ast.LtE)), "C33.grant-guard"),
     ("acquire(timeout=0) waits forever (`if timeout:`)", _in("Semaphore.acquire", replace_expr(lambda n: isinstance(n, ast.Compare) and isinstance(n.ops[0], ast.IsNot) and ast.unparse(n.left) == "timeout", lambda n: n.left)), ("C33.none-test", "C33.timeout")),
